@@ -4,6 +4,7 @@ package c08
 import (
 	"fmt"
 	"net/http"
+	"net/http/httptest"
 	"strings"
 	"testing"
 
@@ -353,3 +354,61 @@ func propHandlerFunc(t *rapid.T) {
 }
 
 func TestPropHandlerFunc(t *testing.T) { rapid.Check(t, propHandlerFunc) }
+
+// propRouterInsideRouter: a router (or a rux.HandlerFunc) mounted as the handler of a route of another router through
+// WrapHTTPHandler - sub-applications are mounted that way.  The writer the client is behind still receives exactly one
+// WriteHeader, before any body byte, carrying the status the inner handler set; the body is what the inner handler wrote.
+func propRouterInsideRouter(t *rapid.T) {
+	ev.Case()
+	status := rapid.SampledFrom([]int{0, 200, 201, 404, 500}).Draw(t, "innerStatus")
+	body := rapid.SampledFrom([]string{"", "x", "inner body"}).Draw(t, "innerBody")
+	outerStatus := rapid.SampledFrom([]int{0, 202}).Draw(t, "statusSetByOuterMiddleware")
+	innerH := func(c *rux.Context) {
+		if status > 0 {
+			c.SetStatus(status)
+		}
+		if body != "" {
+			c.WriteString(body)
+		}
+	}
+	var mounted http.Handler
+	switch rapid.IntRange(0, 1).Draw(t, "innerKind") {
+	case 0:
+		in := rux.New()
+		in.GET("/in", innerH)
+		mounted = in
+	default:
+		mounted = rux.HandlerFunc(innerH)
+	}
+	outer := rux.New()
+	outer.Use(func(c *rux.Context) {
+		if outerStatus > 0 {
+			c.SetStatus(outerStatus)
+		}
+		c.Next()
+	})
+	outer.GET("/in", rux.WrapHTTPHandler(mounted))
+	rec := chain.NewRec()
+	outer.ServeHTTP(rec, httptest.NewRequest("GET", "/in", nil))
+	ev.Eval()
+	// (the inner handler commits its own response when its chain ends - 200 when it set nothing; to the outer
+	// request that is the last status set, whatever an outer middleware recorded before)
+	want := 200
+	if status > 0 {
+		want = status
+	}
+	ctx := fmt.Sprintf("inner status %d body %q, outer middleware status %d: the client's writer received %s", status, body, outerStatus, rec.Log())
+	if hc := rec.HeaderCommits(); len(hc) != 1 || hc[0] != want {
+		t.Fatalf("WriteHeader calls %v, want exactly one with %d: %s", hc, want, ctx)
+	}
+	if err := rec.CheckCommit(); err != nil {
+		t.Fatalf("%v: %s", err, ctx)
+	}
+	if rec.Body() != body {
+		t.Fatalf("body %q, want %q: %s", rec.Body(), body, ctx)
+	}
+	ev.Class("router-or-HandlerFunc-mounted-inside-a-route")
+	ev.NonTrivial(fmt.Sprint(status, body, outerStatus), func() string { return ctx })
+}
+
+func TestPropRouterInsideRouter(t *testing.T) { rapid.Check(t, propRouterInsideRouter) }
